@@ -16,7 +16,7 @@ RULE = ('histories of public Cache calls run in lock-step against the RefCache r
         'distinct_nontrivial = distinct (operation, outcome class, storage side, configuration) cells plus distinct '
         'systematic length<=3 histories')
 DISTINCT = ('cells', 'systematic_histories')
-REQUIRED = ('calls_judged', 'random_histories', 'systematic_histories_run', 'iter_over_100_rows', 'lazy_culls_seen')
+REQUIRED = ('calls_spelled_positionally', 'calls_judged', 'random_histories', 'systematic_histories_run', 'iter_over_100_rows', 'lazy_culls_seen')
 ASSUMPTIONS = ('values/metadata observed through an independent read-only SQLite connection are what other clients see',
                'virtual clock replaces time.time inside diskcache.core',
                'positive ttls sit on odd half-ticks so now == expire_time never occurs')
@@ -110,6 +110,7 @@ def run_history(dc, sc, res, cfg, steps, label):
         res.violation(m.what, dict(m.witness, label=label), signature=classify(m))
         return False
     finally:
+        res.count('calls_spelled_positionally', drv.positional_spellings)
         drv.close()
         sc.drop(d)
 
